@@ -647,6 +647,14 @@ def cases_for(prop, tier, seed, pools, toks, ck):
                 longs.append(" ".join(ws)[:190].rstrip())
             more_toks(ck, toks, [(lang, t) for t in longs], "pre_c13l")
             cases += gen.gen_whole_pair_cases(lang, rnd, pools[lang], toks, 0, targets=longs)
+            # titles made of two-letter words only (sizes, codes, initials): one first letter that is a vowel and one that is
+            # a consonant, each followed by every letter of the script in turn; alone and doubled ("xs", "xs xs")
+            sl = gen.script_letters(lang)
+            cls = dict((chr(c), k) for c, k in gen.LANGTAB[lang]["classes"]) if lang != "none" else {}
+            firsts = [rnd.choice([ch for ch in sl if cls.get(ch, "C") == k] or sl) for k in ("V", "C")]
+            shorts = [f + y if (i + j) % 2 else f + y + " " + f + y for i, f in enumerate(firsts) for j, y in enumerate(sl)]
+            more_toks(ck, toks, [(lang, t) for t in shorts], "pre_c13s")
+            cases += gen.gen_whole_pair_cases(lang, rnd, pools[lang], toks, 0, targets=shorts)
     elif prop == "C14":
         for lang in L:
             cases += gen.gen_split_join_cases(lang, rnd, pools[lang], toks, per(20, 500))
